@@ -99,4 +99,12 @@ PROPS = {
         ],
         "fuzz": [{"mod": "h23", "pkg": "c10", "target": "FuzzC10_UnmarshalCBOR", "secs": 300}],
     },
+    "C19": {
+        "level": "exploration",
+        "units": [
+            R("h23", "c19", "TestC19_FindRoundTrip", (4000, 8), (200000, 16, 3000)),
+            R("h23", "c19", "TestC19_Negotiation", (4000, 4), (200000, 16, 3000)),
+            R("h23", "c19", "TestC19_APIError", (20000, 2), (1000000, 8, 3000)),
+        ],
+    },
 }
